@@ -487,7 +487,7 @@ package keeper
 //@   ensures err == nil ==> msg.Authority == k.authority && noPools() && len(msg.Denom) != 0 && validDenom(msg.Denom)
 //@     && $kvHas[storeOf(k.storeKey)][vpKey()] && $kvVal[storeOf(k.storeKey)][vpKey()] == encOf("types.Params", msg.Denom)
 //@   ensures kvOnlyChanged(storeOf(k.storeKey), vpKey())
-//@   prop C13 C20
+//@   prop C13 C20 C05 C06
 
 //@ // store iteration is not modelled: the list of all vesting types is assumed to be the stored ones (each agrees with the ghost
 //@ // view); periods are only ever written from unit values, so they are whole seconds
